@@ -45,6 +45,9 @@ void SoPlexBase<R>::_optimizeRational(volatile bool* interrupt)
    bool infeasibilityNotCertified = false;
    bool unboundednessNotCertified = false;
 
+   // the floating-point solves of the refinement loops poll the interrupt flag of this call
+   _interrupt = interrupt;
+
    // start timing
    _statistics->solvingTime->start();
    _statistics->preprocessingTime->start();
@@ -5427,7 +5430,7 @@ typename SPxSolverBase<R>::Status SoPlexBase<R>::_solveRealForRational(bool from
       {
          SPX_MSG_INFO1(spxout, spxout << std::endl);
 
-         _solveRealLPAndRecordStatistics();
+         _solveRealLPAndRecordStatistics(_interrupt);
 
          SPX_MSG_INFO1(spxout, spxout << std::endl);
       }
@@ -5958,7 +5961,7 @@ void SoPlexBase<R>::_solveRealForRationalBoosted(
       {
          SPX_MSG_INFO1(spxout, spxout << std::endl);
 
-         _solveBoostedRealLPAndRecordStatistics();
+         _solveBoostedRealLPAndRecordStatistics(_interrupt);
 
          SPX_MSG_INFO1(spxout, spxout << std::endl);
       }
